@@ -35,12 +35,17 @@ int main(int argc, char** argv)
    impl::Lexicon lx;
    const Lexicon& ilx = lx;
    if (argc > 1 and std::string(argv[1]) == "tables") {
-      int pos = 0;
-      for (auto& b : ilx.decompose(Specifiers{~std::uintptr_t{}}))
-         std::cout << "S " << pos++ << ' ' << spell(b.logogram()) << ' ' << raw(ilx.specifiers(b)) << '\n';
-      pos = 0;
-      for (auto& b : ilx.decompose(Qualifiers{~std::uintptr_t{}}))
-         std::cout << "Q " << pos++ << ' ' << spell(b.logogram()) << ' ' << raw(ilx.qualifiers(b)) << '\n';
+      // Candidate names on stdin (one per line): every one the library accepts as a basic specifier / qualifier is a
+      // row of its table.  (Not derived from decompose(~0): a value with bits outside the basis is not a union of names.)
+      std::string w;
+      std::uintptr_t sfull = 0, qfull = 0;
+      while (std::getline(std::cin, w)) {
+         if (w.empty()) continue;
+         try { auto v = raw(ilx.specifiers(Basic_specifier{logo(lx, w)})); sfull |= v; std::cout << "S 0 " << w << ' ' << v << '\n'; } catch (...) { }
+         try { auto v = raw(ilx.qualifiers(Basic_qualifier{logo(lx, w)})); qfull |= v; std::cout << "Q 0 " << w << ' ' << v << '\n'; } catch (...) { }
+      }
+      std::cout << "DS " << names(ilx.decompose(Specifiers{sfull}), 0) << '\n';
+      std::cout << "DQ " << names(ilx.decompose(Qualifiers{qfull}), 0) << '\n';
 #define ACC(n) std::cout << "A " #n " " << raw(ilx.n()) << '\n';
       ACC(export_specifier) ACC(static_specifier) ACC(extern_specifier) ACC(mutable_specifier) ACC(thread_local_specifier)
       ACC(register_specifier) ACC(inline_specifier) ACC(constexpr_specifier) ACC(consteval_specifier) ACC(virtual_specifier)
